@@ -1635,6 +1635,68 @@ def gen_transport_time(repo):
     return "\n".join(L)
 
 
+# --------------------------------------------------------------------------- what a rate program sees: M, M0, TIME, PARM
+
+def gen_bind(repo):
+    """(a) calc_kinetic_reaction (kinetics.cpp): which value every rate_* member of Phreeqc receives before the BASIC rate
+    program of a reactant is run; (b) PBasic::factor (PBasic.cpp): which Phreeqc member the BASIC functions M, M0, TIME, PARM read."""
+    objs, src = ast_dump(repo, "src/phreeqcpp/kinetics.cpp", "calc_kinetic_reaction")
+    fn = definition(objs, "calc_kinetic_reaction")
+    params = {c["id"]: c["name"] for c in kids(fn) if c["kind"] == "ParmVarDecl"}
+    binds = []
+    for a in find_all(fn, lambda x: x["kind"] == "BinaryOperator" and x.get("opcode") == "="):
+        l = strip(kids(a)[0])
+        if not (l["kind"] == "MemberExpr" and kids(l) and strip(kids(l)[0])["kind"] == "CXXThisExpr"):
+            continue
+        nm = l["name"]
+        if not (nm.startswith("rate_") or nm == "count_rate_p"):
+            continue
+        r = strip(kids(a)[1])
+        srcs = "OtherSource"
+        gname, gargs, gobj = member_call_name(r)
+        if gname and not gargs and gobj and strip(gobj[0])["kind"] == "DeclRefExpr" and "KineticsComp" in strip(gobj[0]).get("type", {}).get("qualType", ""):
+            srcs = 'FromComp "%s"' % gname
+        elif r["kind"] == "DeclRefExpr" and r["referencedDecl"]["id"] in params:
+            srcs = 'FromArg "%s"' % params[r["referencedDecl"]["id"]]
+        elif r["kind"] == "CXXMemberCallExpr" and kids(r)[0].get("name") == "size":
+            inner = find_all(r, lambda x: x["kind"] == "MemberExpr" and x.get("name", "").startswith("Get_"))
+            srcs = 'SizeOf "%s"' % (inner[0]["name"] if inner else "?")
+        elif "NAN" in json.dumps(r.get("range", {})) or r["kind"] in ("CallExpr",) or find_all(r, lambda x: x["kind"] == "CallExpr" and "nan" in strip(kids(x)[0]).get("referencedDecl", {}).get("name", "")):
+            srcs = "NotANumber"
+        binds.append((nm, srcs))
+    for a in find_all(fn, lambda x: x["kind"] == "CXXOperatorCallExpr" and len(kids(x)) == 3 and strip(kids(x)[0]).get("referencedDecl", {}).get("name") == "operator="):
+        l = strip(kids(a)[1])
+        if l["kind"] == "MemberExpr" and kids(l) and strip(kids(l)[0])["kind"] == "CXXThisExpr" and l["name"].startswith("rate_"):
+            gname, gargs, gobj = member_call_name(kids(a)[2])
+            binds.append((l["name"], 'FromComp "%s"' % gname if gname and not gargs else "OtherSource"))
+    names = [b[0] for b in binds]
+    if len(set(names)) != len(names):
+        raise Refuse("calc_kinetic_reaction assigns a rate_* member more than once: %r" % names)
+    objs2, _ = ast_dump(repo, "src/phreeqcpp/PBasic.cpp", "factor")
+    fns = [o for o in objs2 if o.get("name") == "factor" and o.get("kind") == "CXXMethodDecl" and any(c.get("kind") == "CompoundStmt" for c in o.get("inner", []))]
+    if len(fns) != 1:
+        raise Refuse("PBasic::factor not found")
+    reads = []
+    for tok in ("tokm", "tokm0", "toktime", "tokparm"):
+        cs = [c for c in find_all(fns[0], lambda x: x["kind"] == "CaseStmt")
+              if any(d["referencedDecl"]["name"] == tok for d in find_all(kids(c)[0], lambda x: x["kind"] == "DeclRefExpr"))]
+        if len(cs) != 1:
+            raise Refuse("PBasic::factor: expected one case for %s" % tok)
+        body = kids(cs[0])[-1]
+        mem = []
+        for m_ in find_all(body, lambda x: x["kind"] == "MemberExpr" and kids(x) and strip(kids(x)[0]).get("name") == "PhreeqcPtr"):
+            if m_["name"] not in mem and m_.get("type", {}).get("qualType", "") != "<bound member function type>":
+                mem.append(m_["name"])
+        reads.append((tok, mem))
+    L = ["(* GENERATED by translator/c12_gen.py from src/phreeqcpp/kinetics.cpp : Phreeqc::calc_kinetic_reaction and src/phreeqcpp/PBasic.cpp : PBasic::factor.  Do not edit. *)",
+         "Require Import String List.", "Require Import IPV.C12.BindModel.", "Import ListNotations.", "Open Scope string_scope.", "",
+         "(* member of Phreeqc  <-  value it receives before the rate program of a reactant runs *)",
+         "Definition g_rate_bind : list (string * source) := [" + "; ".join('("%s", %s)' % b for b in binds) + "].",
+         "(* BASIC function  ->  members of Phreeqc it reads *)",
+         "Definition g_basic_reads : list (string * list string) := [" + "; ".join('("%s", [%s])' % (t, "; ".join('"%s"' % x for x in ms)) for t, ms in reads) + "].", ""]
+    return "\n".join(L)
+
+
 def main():
     repo = sys.argv[1] if len(sys.argv) > 1 else "/repo"
     outd = sys.argv[2] if len(sys.argv) > 2 else None
@@ -1642,6 +1704,11 @@ def main():
     s = gen_step(repo)
     r = gen_restart(repo)
     tt = gen_transport_time(repo)
+    bb = gen_bind(repo)
+    if outd:
+        open(os.path.join(outd, "Gen_C12_Bind.v"), "w").write(bb)
+    else:
+        sys.stdout.write(bb)
     if outd:
         open(os.path.join(outd, "Gen_C12_Restart.v"), "w").write(r)
         open(os.path.join(outd, "Gen_C12_Transport.v"), "w").write(tt)
